@@ -23,6 +23,8 @@ type numCase struct {
 	Items []numItem `json:"items"`
 }
 
+const nodeStruct = "struct Node {\n  1: optional i32 value\n  2: optional Node tail\n  3: optional list<Node> kids\n  4: optional map<string, Node> named\n}\n"
+
 const enumFive = "enum E { ZERO = 0, ONE = 1, MINUS_ONE = -1, MIN = -2147483648, MAX = 2147483647 }\n"
 
 func renderNum(c numCase) (string, bool) {
@@ -80,6 +82,12 @@ func renderNum(c numCase) (string, bool) {
 		sb.WriteString("const i32 x = x\n")
 	case "self-const-2":
 		sb.WriteString("const list<i32> x = [y]\nconst i32 y = z\nconst i32 z = y\n")
+	case "self-const-struct":
+		sb.WriteString(nodeStruct + "const Node a = {\"value\": 1, \"tail\": a}\n")
+	case "self-const-struct-2":
+		sb.WriteString(nodeStruct + "const Node a = {\"tail\": b}\nconst Node b = {\"named\": {\"back\": a}}\n")
+	case "self-const-list":
+		sb.WriteString(nodeStruct + "const Node a = {\"kids\": [{\"value\": 1}, a]}\n")
 	case "self-service":
 		sb.WriteString("service S extends S {}\n")
 	case "throws-typedef":
